@@ -220,13 +220,13 @@ SPECS['C11'] = {
     'budget': {'quick': 170, 'thorough': 1700},
 }
 
-PUPWRAP = ['-Wl,--wrap=tls_record_send', '-Wl,--wrap=sm3_update', '-Wl,--wrap=digest_update', '-Wl,--wrap=tls_seq_num_incr', '-lpthread', '-ldl', '-lm']
+PUPWRAP = ['-Wl,--wrap=tls_record_send', '-Wl,--wrap=sm3_update', '-Wl,--wrap=digest_update', '-Wl,--wrap=tls_seq_num_incr', '-Wl,--wrap=sm4_gcm_encrypt', '-lpthread', '-ldl', '-lm']
 SPECS['C09'] = {
     'level': 'model_checking',
     'technique': 'exhaustive enumeration of (a) credential-defect configurations of the peer and (b) protocol deviations of a puppet prover (the library\'s own endpoint with link-time filters that leave out any one handshake message consistently, or send an empty certificate list) against the real verifying endpoint over vnet, one implementation run per configuration; invariant: verifier completed => credentials authentic and every authentication message seen',
-    'claim': 'For 3 protocols x {client verifies server, server verifies client}: with every defective peer credential of the menu (untrusted root, expired, not yet valid, issuer or second-level issuer without basicConstraints / cA=FALSE, flipped certificate signature, sign key not matching the certificate, TLCP encryption key not matching / encryption certificate forged / expired, chain in wrong order, empty chain), at chain depths 1..3, and with a prover that omits any single one of its handshake messages (Certificate, ServerKeyExchange, CertificateVerify, ClientKeyExchange, Finished, ...) or presents an empty certificate list while keeping its own transcript consistent, the verifying endpoint never reports a completed handshake; with honest credentials of depth 1..3 both sides complete with equal secrets.',
+    'claim': 'For 3 protocols x {client verifies server, server verifies client}: with every defective peer credential of the menu (untrusted root, expired, not yet valid, issuer or second-level issuer without basicConstraints / cA=FALSE, flipped certificate signature, sign key not matching the certificate, TLCP encryption key not matching / encryption certificate forged / expired, chain in wrong order, empty chain), at chain depths 1..3, and with a prover that omits any single one of its handshake messages (Certificate, ServerKeyExchange, CertificateVerify, ClientKeyExchange, Finished, ...) or presents an empty certificate list while keeping its own transcript consistent, and with a prover that lacks the private key and additionally rewrites any one of the first 12 bytes (algorithm identifier, lengths, start of the signature) of its signed message, the verifying endpoint never reports a completed handshake; with honest credentials of depth 1..3 both sides complete with equal secrets.',
     'trusted': 'the peer is the real opposite endpoint with TLS_CTX filled directly (bypassing the key/certificate match check of the loader); the puppet filters sit on tls_record_send / sm3_update / digest_update / tls_seq_num_incr (link-time --wrap)',
-    'rule': 'c09: 3 protocols x 2 verifier roles x 27 credential configurations (3 honest + 24 defective); c09b: 3 protocols x 2 roles x every message the prover sends (4-7 per flight set) x {omit, empty certificate list}; distinct = configuration; states = configurations run, transitions = endpoint runs.',
+    'rule': 'c09: 3 protocols x 2 verifier roles x 27 credential configurations (3 honest + 24 defective); c09b: 3 protocols x 2 roles x every message the prover sends (4-7 per flight set) x {omit, empty certificate list}; keyless prover (genuine chain, unrelated signing key) x its CertificateVerify / ServerKeyExchange x {untouched, 12 header offsets x 9 substitution values altered consistently}; distinct = configuration; states = configurations run, transitions = endpoint runs.',
     'bound': {'quick': 'whole menu, 1 protocol deviation', 'thorough': 'whole menu (+ asan)'},
     'assumptions': ['two simultaneous protocol deviations of the prover and reordered messages are not enumerated (C10 covers dropped / injected / swapped records by a network attacker)'],
     'quick': [J('c09', 'fast', srcs=TLSSRC), J('c09b', 'fast', srcs=TLSSRC, libs=PUPWRAP)],
